@@ -18,13 +18,17 @@ RULE = ("files of n in {1,2,3,5,10,11,12,25,40} (rarely 1001-2100) feature lines
         "line exhibits every dialect feature; sparse regime: arbitrary line shapes, kept only when the reference vote "
         "recovers the dialect), x checklines in {0,1,2,10,n-1,n,n+2} x {file,:memory:} x {error+unique ids, "
         "create_unique+duplicate ids} x keep_order x sort_attribute_values x {path, gzip path, file:// URL (plain and .gz), from_string} x {LF, CRLF}, 4% after an import of the same text with ignore_url_escape_characters on, with '.' coordinates, "
-        "extra columns, empty attribute columns and interleaved comments/blanks/directives; non-trivial = >= 2 lines and "
+        "extra columns (15% of the files: also EMPTY extra columns - lines ending in one or more tabs, empty columns among filled ones), "
+        "in 15% of the files of a quoted-values dialect (gtf, gff3q) values/list items that themselves begin and/or end with a double-quote character, "
+        "empty attribute columns and interleaved comments/blanks/directives; non-trivial = >= 2 lines and "
         ">= 1 multi-valued or escaped value; distinct = distinct (dialect point, n-vs-checklines class, config) tuples "
         "hashed together with the file text")
 REQUIRED = ["imports", "stored features compared", "byte-identical prints", "reopen comparisons", "re-import comparisons",
             "sql: INSERT INTO features", "imports from gzip files", "imports from CRLF files", "imports from URLs",
             "imports after the same text was imported with ignore_url_escape_characters switched on",
-            "imports after an import of the same text failed half-way"]
+            "imports after an import of the same text failed half-way",
+            "stored features whose extra columns are all empty compared", "stored features with empty and filled extra columns compared",
+            "stored features with a value beginning or ending with a double quote compared"]
 REQUIRED_CLASSES = ["fmt=gff3", "fmt=gtf", "fmt=gff2", "fmt=gff3q", "db=file", "db=memory", "strategy=error", "strategy=create_unique",
                     "regime=uniform", "regime=sparse"]
 ASSUMPTIONS = [
@@ -39,6 +43,56 @@ ASSUMPTIONS = [
 ]
 QUICK_SHARDS = 4
 NS = [1, 2, 3, 5, 10, 11, 12, 25, 40]
+QUOTED_FMTS = ("gtf", "gff3q")     # dialects that write every value inside one pair of double quotes
+
+
+def add_empty_extras(rng, recs):
+    """Extra columns are opaque text and may be empty: a line may end in one or more tabs (all extra columns empty),
+    or have empty columns before/between/after filled ones.  At least one line gets an all-empty list."""
+    forced = rng.randrange(len(recs))
+    for i, rec in enumerate(recs):
+        r = rng.random()
+        if i == forced or r < 0.35:
+            rec["extra"] = [""] * rng.choice([1, 1, 2, 3])
+        elif r < 0.6:
+            ex = list(rec["extra"]) or ["x"]
+            for _ in range(rng.choice([1, 1, 2])):
+                ex.insert(rng.randrange(0, len(ex) + 1), "")
+            rec["extra"] = ex
+
+
+def add_edge_quotes(rng, recs):
+    """Quoted-values dialects wrap the (joined) value in ONE pair of quotes; the value itself is opaque text and may
+    begin and/or end with a double-quote character (note ""alpha" subunit"; -> value "alpha" subunit).  Identifier
+    keys are left alone.  Returns the number of values changed."""
+    cands = [(rec, kv, j) for rec in recs for kv in rec["attrs"] if kv[0] not in F.SINGLE
+             for j, v in enumerate(kv[1]) if v]
+    if not cands:
+        return 0
+    forced = rng.randrange(len(cands))
+    done = 0
+    for i, (rec, kv, j) in enumerate(cands):
+        if i != forced and rng.random() > 0.3:
+            continue
+        v = kv[1][j]
+        shape = rng.choice(["lead", "trail", "both", "both", "word", "two"])
+        if shape == "lead":
+            v = '"' + v
+        elif shape == "trail":
+            v = v + '"'
+        elif shape == "both":
+            v = '"' + v + '"'
+        elif shape == "word":
+            v = '"' + v + '" ' + rng.choice(["subunit", "x", "5'"]) if rng.random() < 0.5 else rng.choice(["the", "x"]) + ' "' + v + '"'
+        else:
+            v = '""' + v if rng.random() < 0.5 else v + '""'
+        kv[1][j] = v
+        done += 1
+    return done
+
+
+def edge_quoted(rec):
+    return any(x[:1] == '"' or x[-1:] == '"' for _, v in rec["attrs"] for x in v)
 
 
 def setup(ctx):
@@ -63,6 +117,12 @@ def gen_case(rng):
                         rec[c] = "777"
                 if int(rec["start"]) > int(rec["end"]):
                     rec["start"], rec["end"] = rec["end"], rec["start"]
+    # (own generators for the two input classes below, so that the rest of the case is drawn as before)
+    sub = __import__("random").Random(rng.getrandbits(48))
+    empty_extra = sub.random() < 0.15
+    if empty_extra:
+        add_empty_extras(sub, recs)
+    quote_edges = D["fmt"] in QUOTED_FMTS and sub.random() < 0.15 and add_edge_quotes(sub, recs) > 0
     items = F.decorate(rng, recs)
     ck = rng.choice([0, 1, 2, 10, max(0, n - 1), n, n + 2])
     return {
@@ -74,6 +134,7 @@ def gen_case(rng):
         # the same text was imported earlier in this process while constants.ignore_url_escape_characters was switched on
         "prelude": rng.random() < 0.04,
         "verbose": rng.choice(["not given", "not given", False, True, "debug"]),
+        "empty_extra": empty_extra, "quote_edges": quote_edges,
         "items": items,
     }
 
@@ -272,6 +333,13 @@ def compare(ctx, case, db, recs, lines, voted, text, what="after import"):
                                      "line": line, "printed": printed, "text": text})
                 return False
             ctx.mon("byte-identical prints")
+        if rec["extra"]:
+            if not any(rec["extra"]):
+                ctx.mon("stored features whose extra columns are all empty compared")
+            elif "" in rec["extra"]:
+                ctx.mon("stored features with empty and filled extra columns compared")
+        if edge_quoted(rec):
+            ctx.mon("stored features with a value beginning or ending with a double quote compared")
     return True
 
 
@@ -380,7 +448,10 @@ def run(ctx):
         for cls in ("fmt=" + D["fmt"], "db=" + case["db"], "strategy=" + case["strategy"], "regime=" + case["regime"],
                     "window:" + ncls, "input=" + case["input"]):
             ctx.classes[cls] += 1
-        ctx.case((D, ncls, cfg, F.text_of(case["items"], D)), n >= 2 and rich,
+        kind = "values: " + (" + ".join(x for x in ("empty extra columns" if case.get("empty_extra") else "",
+                                                    "double quotes at the edges of quoted values" if case.get("quote_edges") else "") if x)
+                             or "as before")
+        ctx.case((D, ncls, cfg, F.text_of(case["items"], D)), n >= 2 and rich, cls=kind,
                  sample={"D": D, "checklines": ck, "config": cfg, "text": F.text_of(case["items"], D)[:600]})
     ctx.mon("bins.bins contract evaluations", contracts.EVALS["bins.bins"])
     ctx.mon("Attributes invariant evaluations", contracts.EVALS["Attributes.invariant"])
